@@ -24,6 +24,7 @@ def body(r):
                for i in range(n_ins)]
     swarm.run_swarm(r, PROP, worlds, judges_=JUDGES, need_fault=True)
     return r.finish(
+        minimise=swarm.make_minimiser(PROP, JUDGES, None),
         rule=("seeded swarm of kill/resume chains of length 1-5 for both samplers (kills at arbitrary likelihood "
               "calls and fs events incl. torn writes; iteration- and time-triggered checkpoints, uninformed and "
               "flow phase, populated or empty pool, before/after training, with and without saved density "
